@@ -10,6 +10,7 @@ import Midgard.Spec.Sp3
 import Midgard.Proofs.FixedCol
 import Midgard.Proofs.Sp3File
 import Midgard.Model.Sp3Adv
+import Midgard.Proofs.Sp3NoCR
 
 namespace Midgard.Props.C13
 open Midgard.Sp3 Midgard.Generated.Sp3 Midgard.FixedCol Midgard.Text Midgard.Decimal
@@ -113,7 +114,6 @@ theorem fold_stepLine (F : Factors) (m : Meta) (recP : Layout) (e : Epoch) (ls :
   | cons l ls ih =>
     intro acc hne hok
     have hl : l ≠ [] := hne l (by simp)
-    have hempty : l.isEmpty = false := by cases l <;> simp_all
     simp only [List.foldlM_cons]
     by_cases hp : l.take 1 = ['P']
     · have := hok l (by simp) hp
@@ -125,7 +125,7 @@ theorem fold_stepLine (F : Factors) (m : Meta) (recP : Layout) (e : Epoch) (ls :
       rw [ih (acc ++ [en]) (fun l' h' => hne l' (by simp [h'])) (fun l' h' => hok l' (by simp [h']))]
       simp [entriesOf, hp, hen]
     · have hstep : stepLine F m recP (some e) false acc l = some acc := by
-        simp [stepLine, hp, hempty]
+        simp [stepLine, hp]
       rw [hstep]
       simp only [Option.bind_eq_bind, Option.bind_some]
       rw [ih acc (fun l' h' => hne l' (by simp [h'])) (fun l' h' => hok l' (by simp [h']))]
@@ -149,7 +149,6 @@ theorem block_entries (F : Factors) (m : Meta) (ef : List (Option String)) (recP
     | nil => simp [entriesOf]
     | cons l2 more =>
       have h2 : l2 ≠ [] := hne l2 (by simp)
-      have hempty : l2.isEmpty = false := by cases l2 <;> simp_all
       simp only
       by_cases hp : l2.take 1 = ['P']
       · obtain ⟨en, hen⟩ := Option.isSome_iff_exists.mp (hok l2 (by simp) hp)
@@ -161,7 +160,7 @@ theorem block_entries (F : Factors) (m : Meta) (ef : List (Option String)) (recP
           (fun l' h' => hok l' (by simp [h']))]
         simp [entriesOf, hp, hen]
       · have hstep : stepLine F m recP (some e) true acc l2 = some acc := by
-          simp [stepLine, hp, hempty]
+          simp [stepLine, hp]
         rw [hstep]
         simp only [Option.bind_some]
         rw [fold_stepLine F m recP e more acc (fun l' h' => hne l' (by simp [h']))
@@ -564,6 +563,33 @@ example : ((parseFile factors headerDefs epochFields recP (Midgard.Spec.Sp3File.
 
 end File
 
+/-! ## Empty lines -/
+
+/-- an empty line (what is left of a whitespace-only line after `rstrip`) is no record: it changes nothing -/
+theorem stepLine_blank (F : Factors) (m : Meta) (recP : Layout) (e? : Option Epoch) (second : Bool) (acc : List Entry) :
+    stepLine F m recP e? second acc [] = some acc := by
+  simp [stepLine]
+
+/-- **empty lines are skipped**: the lines of an epoch block after its second line can be interleaved with any
+number of empty lines (also at the end of the file) without changing what is read -/
+theorem blank_lines_skipped (F : Factors) (m : Meta) (recP : Layout) (e? : Option Epoch) (ls : List Str) :
+    ∀ acc : List Entry, ls.foldlM (stepLine F m recP e? false) acc =
+      (ls.filter fun l => !l.isEmpty).foldlM (stepLine F m recP e? false) acc := by
+  induction ls with
+  | nil => intro acc; rfl
+  | cons l ls ih =>
+    intro acc
+    cases l with
+    | nil =>
+      simp only [List.foldlM_cons, stepLine_blank, Option.bind_eq_bind, Option.bind_some, List.filter_cons, List.isEmpty_nil,
+        Bool.not_true, Bool.false_eq_true, if_false]
+      exact ih acc
+    | cons c cs =>
+      simp only [List.foldlM_cons, List.filter_cons, List.isEmpty_cons, Bool.not_false, if_true, Option.bind_eq_bind]
+      cases stepLine F m recP e? false acc (c :: cs) with
+      | none => rfl
+      | some a => simp only [Option.bind_some]; exact ih a
+
 /-! ## Text mode: the bytes on disk -/
 
 /-- text mode (universal newlines) changes nothing in a text without carriage returns -/
@@ -585,6 +611,27 @@ theorem parseFileText_eq (F : Factors) (defs : List HeaderDef) (epochFields : Li
     (t : Str) (h : ∀ c ∈ t, c ≠ '\r') : parseFileText F defs epochFields recP t = parseFile F defs epochFields recP t := by
   unfold parseFileText
   rw [universalNewlines_id t h]
+
+end Midgard.Props.C13
+
+/-! ## Text mode without side hypothesis: a rendered file contains no carriage return -/
+
+namespace Midgard.Props.C13
+open Midgard.Sp3 Midgard.Generated.Sp3 Midgard.FixedCol Midgard.Text Midgard.Decimal
+open Midgard.Spec.Sp3File Midgard.Spec.NumText
+
+/-- **file_roundtrip_text**: `file_roundtrip` for the text-level entry point (universal newlines, then
+`parseFile`) — no side hypothesis about carriage returns, `render_noCR` discharges it. -/
+theorem file_roundtrip_text (f : File) (hwf : f.wf = true) :
+    parseFileText factors headerDefs epochFields recP (Midgard.Spec.Sp3File.render f) =
+      some ⟨expectedMeta f.hdr, expectedEntries factors f⟩ := by
+  rw [parseFileText_eq _ _ _ _ _ (render_noCR f hwf)]
+  exact file_roundtrip f hwf
+
+/-- the hypothesis is satisfiable (`demoFile.wf`, see `Props/C13.lean`) and the text entry point delivers the file -/
+example : parseFileText factors headerDefs epochFields recP (Midgard.Spec.Sp3File.render demoFile) =
+    some ⟨expectedMeta demoFile.hdr, expectedEntries factors demoFile⟩ :=
+  file_roundtrip_text demoFile (by decide +kernel)
 
 end Midgard.Props.C13
 
@@ -616,3 +663,6 @@ end Midgard.Props.C13
 #print axioms Midgard.Props.C13.all_columns_equal_length
 #print axioms Midgard.Props.C13.universalNewlines_id
 #print axioms Midgard.Props.C13.parseFileText_eq
+#print axioms Midgard.Props.C13.file_roundtrip_text
+#print axioms Midgard.Props.C13.stepLine_blank
+#print axioms Midgard.Props.C13.blank_lines_skipped
